@@ -29,7 +29,10 @@ def run(c):
               "cases right after a run on the same state that a panicking Report callback aborted inside a dead branch; every history "
               "but the first also loads 7-10 disturber rules -- Do() handlers, Contains() searches with sub-patterns of a concrete node "
               "kind over whole bodies, custom bytecode filters, always-rejecting filters on the probes themselves -- half of them "
-              "ending in Deadcode() / !Deadcode() (every report of those is judged by the flag of its node); in half of the cases the "
+              "ending in Deadcode() / !Deadcode() (every report of those is judged by the flag of its node), among them list patterns "
+              "whose Where() reads no pattern variable, each loaded under both tails so that a _dead and a _live list rule meet in every "
+              "block; the reports a run with a panicking callback delivers (before the panic and, should Run carry on, after it) are judged "
+              "the same way; in half of the cases the "
               "file is also run with Report callbacks that start runs over this file / the previous one (nil, own, pooled states; same "
               "or another goroutine; two levels), each of which must report what it reports alone")
     c.trusted += walkerlib.TRUSTED + ["engine-level oracle: ast.Inspect + stack + types.Info.Types[cond].Value in harness/cmd/walker"]
@@ -61,7 +64,7 @@ def run(c):
                 kinds = o.get("kinds") or {}
                 for k, v in kinds.items():
                     c.coverage["disturber_rules:" + k] = c.coverage.get("disturber_rules:" + k, 0) + v
-                missing = [k for k in ("do", "contains", "custom", "reject", "do+deadcode", "contains+deadcode", "custom+deadcode") if not kinds.get(k)]
+                missing = [k for k in ("do", "contains", "custom", "reject", "list", "do+deadcode", "contains+deadcode", "custom+deadcode", "list+deadcode") if not kinds.get(k)]
                 if o["probes"] < 18 or missing:
                     c.obligation("harness:deadcode-disturbers", False, "only %d disturber templates load (%s); kinds missing from the histories: %s"
                                  % (o["probes"], o.get("mismatch"), missing))
@@ -98,6 +101,9 @@ def run(c):
             c.obligation("harness-run:deadcode", False, out[-2000:])
         c.coverage["deadcode_files"] = c.coverage.get("deadcode_files", 0) + n
         c.coverage["load_histories_with_deadcode_rules"] = max(c.coverage.get("load_histories_with_deadcode_rules", 0), len(hist))
+        if not c.coverage.get("deadcode_runs:reports:list-rule+deadcode") or not c.coverage.get("deadcode_runs:reports:judged-in-panicking-runs"):
+            c.obligation("harness:deadcode-list-rules-and-panicking-runs-judged", False, "no report of a list rule with a Deadcode() tail was judged / no report "
+                         "of a run with a panicking callback was judged: %s" % {k: v for k, v in c.coverage.items() if k.startswith("deadcode_runs:")})
         if not c.coverage.get("deadcode_runs:reports:disturber+deadcode") or not c.coverage.get("deadcode_runs:nested-runs"):
             c.obligation("harness:deadcode-disturbers-ran", False, "no disturber rule with a Deadcode() tail reported / no re-entrant run happened: %s"
                          % {k: v for k, v in c.coverage.items() if k.startswith("deadcode_runs:")})
